@@ -3,6 +3,19 @@ package main
 import (
 	"verifharness/c06"
 	"verifharness/emit"
+	"verifharness/pipeline"
 )
 
-func main() { emit.Main("C06", c06.Run) }
+func main() {
+	emit.Main("C06", func(seed int64, tier, outDir string) (*emit.Summary, error) {
+		sum, err := c06.Run(seed, tier, outDir)
+		if err != nil {
+			return nil, err
+		}
+		// the wait verdicts seen through the whole pipeline (profile C06p, check_C06p)
+		if err := pipeline.AddCases(sum, "C06p", seed, tier, outDir); err != nil {
+			return nil, err
+		}
+		return sum, nil
+	})
+}
